@@ -45,15 +45,16 @@ Summ(e) == [dur |-> e.dur, speak |-> e.speak, sounds |-> SeqSet(e.sounds)]
 Unchanged(pre, post, except) ==
     /\ Keys(post) \ except = Keys(pre) \ except
     /\ \A k \in Keys(pre) \ except : post[k] = pre[k]
-RowOf(file, crc) == file.table[CHOOSE j \in 1..Len(file.table) : file.table[j].crc = crc]
+\* the saved table goes by the entries' own checksums (own_crc), not by the dictionary keys
 FileFails(file, pre, ver) ==
-    LET t == file.table IN UNION {
+    LET t == file.table
+        crcs == {pre[k].own_crc : k \in Keys(pre)} IN UNION {
         IF file.magic # "VSIF" \/ file.version # ver THEN {F("image.header", ver)} ELSE {},
         IF file.count # Cardinality(Keys(pre)) \/ Len(t) # file.count THEN {F("image.count", Cardinality(Keys(pre)))} ELSE {},
         IF \E j \in 1..(Len(t) - 1) : ~CrcLess(t[j].crc, t[j + 1].crc) THEN {F("image.sorted", "strictly ascending checksums")} ELSE {},
-        IF {t[j].crc : j \in 1..Len(t)} # {pre[k].crc : k \in Keys(pre)} THEN {F("image.checksums", {pre[k].crc : k \in Keys(pre)})} ELSE {},
+        IF {t[j].crc : j \in 1..Len(t)} # crcs THEN {F("image.checksums", crcs)} ELSE {},
         {F("image.summary", [k |-> k, dur |-> pre[k].dur, speak |-> IF ver = 3 THEN pre[k].speak ELSE 0 - 1, sounds |-> pre[k].sounds]) :
-            k \in {k \in Keys(pre) : \E j \in 1..Len(t) : t[j].crc = pre[k].crc /\
+            k \in {k \in Keys(pre) : \E j \in 1..Len(t) : t[j].crc = pre[k].own_crc /\
                       (t[j].dur # pre[k].dur \/ t[j].sounds # pre[k].sounds
                        \/ t[j].speak # (IF ver = 3 THEN pre[k].speak ELSE 0 - 1))}}}
 \* what loading a decoded file gives for one row
@@ -77,13 +78,21 @@ ImageFails(r) ==
                 ELSE UNION {
                     IF Summ(post[a.k]) # want THEN {F("image.summary", want)} ELSE {},
                     IF ~post[a.k].parsed \/ ~post[a.k].named THEN {F("image.add.form", TRUE)} ELSE {},
-                    IF post[a.k].crc # post[a.k].own_crc THEN {F("image.add.checksum", post[a.k].own_crc)} ELSE {},
+                    IF post[a.k].crc # post[a.k].own_crc \/ post[a.k].own_crc # r.res.want_crc
+                        THEN {F("image.add.checksum", r.res.want_crc)} ELSE {},
                     \* another spelling of the file name is the same entry
                     IF a.k \in Keys(pre) /\ pre[a.k].crc # post[a.k].crc THEN {F("image.add.normalise", pre[a.k].crc)} ELSE {}},
                 IF ~Unchanged(pre, post, {a.k}) THEN {F("image.frame", a.k)} ELSE {}}
           [] a.op = "drop" -> IF a.k \in Keys(post) \/ ~Unchanged(pre, post, {a.k}) THEN {F("image.drop", a.k)} ELSE {}
+          [] a.op = "rename" ->
+                \* the entry's checksum is the new name's, its place in the dictionary and all else stay
+                IF a.k \notin Keys(post) \/ ~Unchanged(pre, post, {a.k})
+                   \/ post[a.k] # [pre[a.k] EXCEPT !.own_crc = r.res.want_crc, !.named = TRUE]
+                THEN {F("image.rename", r.res.want_crc)} ELSE {}
           [] a.op = "save" -> UNION {FileFails(r.res.file, pre, a.ver),
-                                     IF post # pre THEN {F("image.save.frame", "dictionary unchanged")} ELSE {}}
+                                     IF post # pre THEN {F("image.save.frame", "dictionary unchanged")} ELSE {},
+                                     \* the file read back and written again is the same file
+                                     IF r.res.h2 # r.res.h1 THEN {F("image.rewrite", r.res.h1)} ELSE {}}
           [] a.op = "load" -> LoadFails(r, [k \in {} |-> 0])
           [] a.op = "merge" -> LoadFails(r, pre)
           [] a.op = "touch" -> UNION {
